@@ -24,12 +24,24 @@ ASSUMPTIONS = ["Erfi is evaluated for |x| <= 26.71 (the property states 'all rea
                "subnormals to 1e-1 included), every component of the vector harmonics within 64 eps x sum of |coefficient x Y_{l_hat,m_hat}| (the terms of the coded sum cancel, "
                "so a component can only be judged relative to its terms; worst on HEAD 3.6e-16); below the normal double range an absolute 2^-1022 (underflow) is allowed",
                "call sequences: each result is compared bit for bit with the same call made by the harness executable in a fresh process (no earlier call of the function)",
+               "Dawson_Integral / Erfi outside the stated |x| <= 30: for |x| >= 8.6e8 the node index n0 = 2*int(0.5|x|/H + 0.5) overflows int (UBSan: signed integer overflow) and "
+               "Dawson_Integral(1e9) is NaN - outside the property's domain, not generated (audit item P12); the asymptotic 1/(2x) would be a two-line guard",
+               "Round with zero significant digits (outside the stated d = 1..7): on HEAD Round(x,0) = inf; tolerated while PENDING_ROUND0 (repair proposed: /tmp/fixprop-C17-2), "
+               "strict clause 'does not stop with a diagnostic' otherwise",
                "Floats_Equal: the decision is compared with the model unless the tolerance is within 2^-30 (relative) of the relative difference AND the double "
                "computation of |a-b|/max(|a|,|b|) is inexact (exact boundary cases tol == relative difference are compared: they separate <= from <); "
                "reflexivity and symmetry are unconditional for every tolerance >= 0"]
 TRUSTED = ["mpmath (erfi, erfinv, sqrt, spherharm for the self-test of the reference)", "the driver's rational exp (validated here against mpmath on every Dawson/Erfi request)"]
 
 LMAX = 12
+
+# Pending repair proposed to the integrator (True = the behaviour of /repo HEAD is tolerated; LP_ASSUME_FIXED=ROUND0 switches the strict clause on)
+PENDING_ROUND0 = True       # Round(x, 0) returns inf instead of stopping with a diagnostic (/tmp/fixprop-C17-2)
+
+
+def pending(item):
+    import os
+    return {"ROUND0": PENDING_ROUND0}[item] and item not in os.environ.get("LP_ASSUME_FIXED", "").split(",")
 
 
 def mp():
@@ -216,6 +228,9 @@ def generate(tier, seed, ctx):
     for d in range(1, 8):
         for rep in range(36 if thorough else 8):
             R.append("c17.roundscan %d %d %d %s %d" % (d, rng.randint(-298, 298), 200, hx(rng.random()), rng.choice([-1, 1])))
+    for x in (3.0, -0.25, 1e300, 0.0, 123456.789):
+        R.append("c17.round %s 0" % hx(x))
+    R.append("c17.roundV %s 0" % lst([1.5, -2.5]))
     for (x, d) in [(2.5, 1), (3.5, 1), (-2.5, 1), (1.25, 2), (0.0, 1), (0.0, 9), (1.0, 8), (123.0, 8), (5.0, 0), (1000.0, 1), (1000.0, 3), (999.0, 2), (9.5, 1),
                    (99.5, 2), (1e22, 3), (1e-22, 3), (1.0, 7), (123456789.0, 7)]:
         R.append("c17.round %s %d" % (hx(x), d))
@@ -442,6 +457,14 @@ def compare(rq, impl, model, ctx):
     op = rq.split(" ", 1)[0]
     a = rq.split()[1:]
     bump(ctx, op)
+    if op in ("c17.round", "c17.roundV") and int(a[-1]) == 0 and (op == "c17.round" or int(a[0]) > 0):
+        # zero significant digits: a meaningless request (the property quantifies d = 1..7)
+        if pending("ROUND0"):
+            bump(ctx, "pending ROUND0: Round(x, 0)")
+            return []
+        if tag(impl) != "err":
+            return [fail("prop", "Round with zero significant digits does not stop with a diagnostic", impl[:100])]
+        return []
     if tag(model) == "undef":
         return []
     fs, both = std_outcome(rq, impl, model)
